@@ -361,6 +361,31 @@ def r13_2(ctx, counts: dict[str, int]) -> RuleResult:
         res.instances.append(f'{cls.key}.__copy__ returns {[stmt_text(r.value) for r in rets if r.value]}')
         good = bool(rets) and all(isinstance(r.value, ast.Name) and r.value.id in built
                                   or isinstance(r.value, ast.Call) for r in rets)
+        # the copy must not alias mutable state of the original
+        init = cls.methods.get('__init__')
+        mutable = set()
+        if init is not None:
+            for s_ in walk_local(init.node):
+                if isinstance(s_, ast.Assign) and isinstance(s_.value, (ast.Call, ast.List,
+                                                                       ast.Dict, ast.Set)):
+                    if isinstance(s_.value, ast.Call) and dotted(s_.value.func) in (
+                            'str', 'int', 'bool', 'tuple', 'frozenset'):
+                        continue
+                    for t in s_.targets:
+                        if isinstance(t, ast.Attribute) and dotted(t.value) == 'self':
+                            mutable.add(t.attr)
+        for s_ in walk_local(cp.node):
+            if isinstance(s_, ast.Assign) and isinstance(s_.value, ast.Attribute) \
+                    and dotted(s_.value.value) == 'self' and s_.value.attr in mutable:
+                for t in s_.targets:
+                    if isinstance(t, ast.Attribute) and isinstance(t.value, ast.Name) \
+                            and t.value.id in built:
+                        res.fail(finding('R13.2', cp, s_, f'__copy__ aliases {s_.value.attr}',
+                                         f'{cname}.__copy__ assigns self.{s_.value.attr} (a '
+                                         f'mutable {"subset" if cname == "CharacterClass" else "list"}'
+                                         f') to the copy without copying it: mutating the copy '
+                                         f'(or a "pure" operator result) changes the original'))
+        res.instances.append(f'{cls.key}.__copy__: mutable state {sorted(mutable)} not aliased')
         if good:
             res.ok()
         else:
